@@ -301,4 +301,10 @@ theorem parseInt_of_pyInt (eng : FloatEng) (nullable : Bool) {s : Str} {n : Int}
   simp [parseInt, isNullish, hne, intCall, h, catchTypeValue]
 
 
+/-! ### the float round-trip hypotheses are decided by `floatRtB` -/
+
+theorem floatRtB_iff (eng : FloatEng) (x : PyFloat) :
+    floatRtB eng x = true ↔ (eng.ofStr (eng.repr x) = some x ∧ eng.repr x ≠ nullText) := by
+  simp [floatRtB]
+
 end Clikit.Flags
